@@ -57,6 +57,10 @@ def step (st : St) (op : String) (m : KV) : Option (St × String) :=
     let sid ← getNat m "sid"
     let (s', r) := Panel.closeLocked st rid sid
     pure (s', match r with | some n => s!"remaining={n}" | none => "norec")
+  | "closeQuiet" => do  -- a closure whose answer was not observed (ran concurrently); the state is compared afterwards
+    let rid ← getNat m "rec"
+    let sid ← getNat m "sid"
+    pure ((Panel.closeLocked st rid sid).1, "ok")
   | "retire" => do
     let rid ← getNat m "rec"
     pure (Panel.retire Panel.genCfg st rid, "ok")
